@@ -44,7 +44,7 @@ theorem lookups_agree (a b c : Nat) (ops : List Op) :
   have hc : Coherent s := cache_coherent a b c ops
   have hg : s.g = g := refines a b c ops
   rw [← hg]
-  exact ⟨fun k => getByKey_ok hc k, fun x hint => getByAddr_ok s x hint, fun sv => peersForService_ok hc sv,
+  exact ⟨fun k => getByKey_ok hc k, fun x hint => getByAddr_ok hc x hint, fun sv => peersForService_ok hc sv,
     fun svc old => walkable_ok hc svc old, fun k => introsFrom_ok hc k⟩
 
 /-- A peer removed with remove_peer is returned by no lookup — directly afterwards and after any further queries
@@ -102,6 +102,28 @@ theorem removed_can_be_added_again (a b c : Nat) (ops : List Op) (p p' : Peer) (
   rw [← hkey]
   exact getByKey_of_mem hc' hmem
 
+/-- The same after remove_by_address (the path on which the unchanged tree left the key index behind, so that the peer
+    could never be added again): any verified peer that used the address can be re-added under its key. -/
+theorem removed_by_address_can_be_added_again (a b c : Nat) (ops : List Op) (x : Addr) (p p' : Peer) (qs : List Op)
+    (hq : ∀ op ∈ qs, op.isQuery = true) (hkey : p'.key = p.key)
+    (hp : p ∈ (run (init a b c) ops).g.verified) (hx : x ∈ p.addrList) :
+    let s := run (init a b c) (ops ++ [Op.rmAddr x] ++ qs)
+    p'.key ∉ s.g.blMid → (∀ y ∈ p'.addrList, y ∉ s.g.blAddr) →
+    (step s (Op.add p')).getByKey p.key = some p' := by
+  intro s hm hb
+  have hc : Coherent s := cache_coherent a b c _
+  have hgone : p'.key ∉ s.g.keys := by
+    have h1 : s.g = (run (init a b c) (ops ++ [Op.rmAddr x])).g := by
+      show (run _ (ops ++ [Op.rmAddr x] ++ qs)).g = _
+      rw [run_append _ (ops ++ [Op.rmAddr x]) qs]; exact run_queries_g _ qs hq
+    rw [h1, run_append, hkey]
+    exact mem_keys_removeByAddress _ x p hp hx (cache_coherent a b c ops).keysNodup
+  have hc' : Coherent (step s (Op.add p')) := coherent_step hc _
+  have hmem : p' ∈ (step s (Op.add p')).g.verified := by
+    rw [step_g hc]; exact addVerified_mem p' hm hgone hb
+  rw [← hkey]
+  exact getByKey_of_mem hc' hmem
+
 /-- Blacklisted identities never become verified: from any reachable state in which the mid is blacklisted and not
     (yet) verified, no continuation makes it verified or lets the by-key lookup return it. -/
 theorem blacklisted_never_verified (a b c : Nat) (pre post : List Op) (k : Key) :
@@ -128,10 +150,13 @@ theorem blacklisted_address_never_walkable (a b c : Nat) (pre post : List Op) (x
   have hx : x ∉ akeys (run s post).g.allAddr := by
     rw [run_g hc post]; exact run_blAddr s.g post x hl hb hk
   refine ⟨hx, fun svc old hmem => hx ?_⟩
-  have hw := walkable_ok hc' svc old
-  cases svc with
-  | none => exact ((hw x).1 hmem).1
+  have hw := (walkable_ok hc' svc old).2
+  cases htr : truthy svc with
+  | none =>
+    rw [htr] at hw
+    exact ((hw x).1 hmem).1
   | some sv =>
+    rw [htr] at hw
     obtain ⟨_, w, hw', _⟩ := (hw x).1 hmem
     exact mem_akeys_iff.2 ⟨w, hw'⟩
 
@@ -155,9 +180,36 @@ theorem snapshot_roundtrip (g : Graph) (hwf : ∀ x ∈ g.snapshotAddrs, WFAddr 
     decodeAll_encode g.snapshotAddrs hwf _ (Nat.le_refl _)
   have h1 : x ∈ (((fresh bl bm a b c).loadSnapshot g.snapshot).walkable none false).1 ↔
       x ∈ akeys (loadAddrs [] g.snapshotAddrs) := by
-    simp [Net.walkable, Net.loadSnapshot, hd, fresh, init]
+    simp [Net.walkable, truthy, Net.loadSnapshot, hd, fresh, init]
   rw [h1, mem_akeys_loadAddrs]
   simp [akeys]
+
+/-- The other side of the snapshot clause, stated so that the reading chosen above is explicit: for every (non-empty)
+    service id the addresses a snapshot load brought in are NOT returned by `get_walkable_addresses(service_id)` — whatever
+    bytes were loaded.  load_snapshot stores `WalkableAddress(b"", None, False)`, i.e. no introducer and no service, and
+    the per-service filter keeps only addresses with a matching service or introducer.  `Community.get_walkable_addresses`
+    (the production caller) passes its community id, so a community never walks to a loaded address.  The property text
+    ("makes exactly those addresses walkable") is read for the service-less query, `snapshot_roundtrip`; under the
+    per-service reading the clause is false for the code and this theorem is its refutation. -/
+theorem snapshot_not_walkable_for_any_service (d : Bytes) (bl : List Addr) (bm : List Key) (a b c : Nat) (sv : Svc)
+    (hsv : sv ≠ 0) (old : Bool) :
+    (((fresh bl bm a b c).loadSnapshot d).walkable (some sv) old).1 = [] := by
+  unfold Net.walkable
+  rw [truthy_some hsv]
+  simp only
+  rw [List.filter_eq_nil_iff]
+  intro x _
+  have : ∀ w, aget x ((fresh bl bm a b c).loadSnapshot d).g.allAddr = some w → w = ⟨none, none, false⟩ := by
+    intro w hw
+    rcases loadAddrs_entries [] _ x w (aget_some_mem hw) with h | h
+    · cases h
+    · exact h
+  unfold Graph.walkFilter
+  cases hx : aget x ((fresh bl bm a b c).loadSnapshot d).g.allAddr with
+  | none => simp
+  | some w =>
+    rw [this w hx]
+    simp
 
 /-- The docstring of `verified_peers` says "Peer.address must be in _all_addresses".  The code does not maintain that:
     after an address update of a known key (or after remove_peer of another identity on the same address) a verified
@@ -166,8 +218,8 @@ theorem snapshot_roundtrip (g : Graph) (hwf : ∀ x ∈ g.snapshotAddrs, WFAddr 
 theorem verified_address_need_not_be_known :
     ∃ ops : List Op, ∃ p ∈ (run (init 1 1 1) ops).g.verified, ∃ x,
       p.preferred = some x ∧ x ∉ akeys (run (init 1 1 1) ops).g.allAddr :=
-  ⟨[.add ⟨0, [(0, ⟨4, [10, 0, 0, 1], 4001⟩)]⟩, .add ⟨0, [(0, ⟨4, [10, 0, 0, 2], 4002⟩)]⟩],
-   ⟨0, [(0, ⟨4, [10, 0, 0, 2], 4002⟩)]⟩, by decide, ⟨4, [10, 0, 0, 2], 4002⟩, by decide⟩
+  ⟨[.add { key := 0, addrs := [(0, ⟨4, [10, 0, 0, 1], 4001⟩)] }, .add { key := 0, addrs := [(0, ⟨4, [10, 0, 0, 2], 4002⟩)] }],
+   { key := 0, addrs := [(0, ⟨4, [10, 0, 0, 2], 4002⟩)] }, by decide, ⟨4, [10, 0, 0, 2], 4002⟩, by decide⟩
 
 /-- What does hold: at the moment add_verified_peer makes a key verified, at least one of the addresses the peer came
     with is a known address. -/
@@ -213,25 +265,52 @@ theorem lru_bounded (a b c : Nat) (ops : List Op) : Bounded (run (init a b c) op
 def a1 : Addr := ⟨4, [10, 0, 0, 1], 4001⟩
 def a2 : Addr := ⟨4, [10, 0, 0, 2], 4002⟩
 def a3 : Addr := ⟨4, [10, 0, 0, 3], 4003⟩
-def p0 : Peer := ⟨0, [(0, a1)]⟩
-def p0' : Peer := ⟨0, [(0, a2)]⟩
-def p1 : Peer := ⟨1, [(0, a2)]⟩
+def p0 : Peer := { key := 0, addrs := [(0, a1)] }
+def p0' : Peer := { key := 0, addrs := [(0, a2)] }
+def p1 : Peer := { key := 1, addrs := [(0, a2)] }
 
 /-- NEGATION of the strong reading of the address blacklist, three reachable witnesses: a peer on a blacklisted address
     becomes verified (1) when the address came in through load_snapshot, (2) when it presents a second, known address,
     (3) when the address was known before it was blacklisted. -/
 theorem address_blacklist_is_best_effort :
-    (5 ∈ (run (init 2 2 2) [.blAddr a3, .load (encodeAddr a3), .add ⟨5, [(0, a3)]⟩]).g.keys) ∧
-    (5 ∈ (run (init 2 2 2) [.blAddr a3, .add p1, .add ⟨5, [(0, a2), (1, a3)]⟩]).g.keys) ∧
-    (5 ∈ (run (init 2 2 2) [.disc p1 a3 none false, .blAddr a3, .add ⟨5, [(0, a3)]⟩]).g.keys) := by decide
+    (5 ∈ (run (init 2 2 2) [.blAddr a3, .load (encodeAddr a3), .add { key := 5, addrs := [(0, a3)] }]).g.keys) ∧
+    (5 ∈ (run (init 2 2 2) [.blAddr a3, .add p1, .add { key := 5, addrs := [(0, a2), (1, a3)] }]).g.keys) ∧
+    (5 ∈ (run (init 2 2 2) [.disc p1 a3 none false, .blAddr a3, .add { key := 5, addrs := [(0, a3)] }]).g.keys) := by decide
 
 /-- hypotheses of `address_blacklisted_identity_never_verified_partial` hold in a reachable state, and the identity is
     indeed refused there while another one is accepted -/
-example : let s := run (init 2 2 2) [.blAddr a3, .add p1, .add ⟨5, [(0, a3)]⟩]
+example : let s := run (init 2 2 2) [.blAddr a3, .add p1, .add { key := 5, addrs := [(0, a3)] }]
     a3 ∈ s.g.blAddr ∧ a3 ∉ akeys s.g.allAddr ∧ 5 ∉ s.g.keys ∧ 1 ∈ s.g.keys := by decide
 
 /-- `snapshot_roundtrip` with a blacklist that contains a snapshot address: it is walkable after the load -/
 example : (((fresh [a1] [] 2 2 2).loadSnapshot (run (init 2 2 2) [.add p0]).g.snapshot).walkable none false).1 = [a1] := by
+  decide
+
+/-- object identity matters: after remove + re-add under another address the address cache still points at the OLD object
+    (whose content still has the old address), and the lookup does not return it -/
+example : let s := run (init 2 2 2) [.add p0, .qAddr a1 none, .rmPeer p0, .add p0']
+    s.deref 0 0 = some p0 ∧ aget a1 s.ipCache = some (0, 0) ∧ aget 0 s.byKey = some 1 ∧ (s.getByAddr a1 none).1 = none := by
+  decide
+
+/-- in-place update of the stored Peer (lazy_wrapper's `peer.add_address(source_address)`): the cached old address stops
+    resolving, the new one resolves, the snapshot follows -/
+example : let s := run (init 2 2 2) [.add p0, .qAddr a1 none, .setAddr 0 0 a2]
+    (s.getByAddr a1 none).1 = none ∧ ((s.getByAddr a2 none).1.map (·.key)) = some 0 ∧ s.g.snapshotAddrs = [a2] := by decide
+
+/-- no duplicates: the same introducer introduces the same address again after having been removed -/
+example : ((run (init 2 2 2) [.disc p0 a3 (some 1) false, .qIntro 0, .rmPeer p0, .disc p0 a3 (some 1) false]).introsFrom 0).1
+    = [a3] := by decide
+
+/-- a peer constructed with an address of a class outside INTERFACE_ORDER (slot 4 = DomainAddress) keeps it as preferred
+    address; built with add_address only it has none -/
+example : (run (init 2 2 2) [.add { key := 0, addrs := [(4, a1)], ctor := some a1 }]).g.snapshotAddrs = [a1] ∧
+    (run (init 2 2 2) [.add { key := 0, addrs := [(4, a1)] }]).g.snapshotAddrs = [] := by decide
+
+/-- the empty service id means "no service" -/
+example : ((run (init 2 2 2) [.add p0, .disc p0 a3 (some 0) false]).walkable (some 0) false).1 = [a3] := by decide
+
+/-- a host name in valid multi-byte UTF-8 is accepted by the decoder, an overlong form is not -/
+example : utf8Valid [0x6e, 0xc3, 0xb6, 0x64] = true ∧ utf8Valid [0xc0, 0xaf] = false ∧ utf8Valid [0xed, 0xa0, 0x80] = false := by
   decide
 
 /-- the stale-cache shape (query, removal, query) on tiny caches: the lookup by address is `none` after the removal -/
